@@ -52,5 +52,58 @@ theorem unknown_stays_unknown (rs : List Report) (h : ∀ r ∈ rs, r.member = f
     simp [applies, h r hr]
   simp [this]
 
+/-! ### with the entry point that adds a record by hand (`AddEnr`)
+    A node that ENTERS the table by the call starts with the maximum radius; for a node that is in the table already the
+    call changes nothing (seeded change C20g made it reset the radius). -/
+inductive Ev where
+  | report (r : Report)
+  | addEnr (entered : Bool)      -- entered = the node was not in the table before and is an entry afterwards
+deriving Repr
+
+def maxRadius : Nat := 2 ^ 256 - 1
+
+def stepEv (c : Option Nat) : Ev → Option Nat
+  | .report r => step c r
+  | .addEnr entered => if entered then some maxRadius else c
+
+def runEv (c : Option Nat) (es : List Ev) : Option Nat := es.foldl stepEv c
+
+/-- the last event that sets the cache decides it: an applying report sets the reported radius, an entering AddEnr the maximum -/
+def sets : Ev → Option Nat
+  | .report r => if applies r then some r.radius else none
+  | .addEnr entered => if entered then some maxRadius else none
+
+theorem stepEv_sets (c : Option Nat) (e : Ev) : stepEv c e = match sets e with | some v => some v | none => c := by
+  cases e with
+  | report r => simp only [stepEv, step, sets]; split <;> rfl
+  | addEnr entered => simp only [stepEv, sets]; split <;> rfl
+
+theorem runEv_last_setter (c : Option Nat) (es : List Ev) :
+    runEv c es = match (es.filterMap sets).getLast? with
+      | some v => some v
+      | none => c := by
+  induction es generalizing c with
+  | nil => rfl
+  | cons e es ih =>
+    simp only [runEv, List.foldl_cons] at ih ⊢
+    rw [ih, stepEv_sets]
+    simp only [List.filterMap_cons]
+    cases hs : sets e with
+    | none => simp
+    | some v =>
+      simp only
+      cases h : (es.filterMap sets).getLast? with
+      | none =>
+        have : es.filterMap sets = [] := List.getLast?_eq_none_iff.mp h
+        simp [this]
+      | some x =>
+        have hne : es.filterMap sets ≠ [] := by intro h0; rw [h0] at h; simp at h
+        rw [List.getLast?_cons_of_ne_nil hne]
+        simp [h]
+
+/-- AddEnr for a node that is already in the table never changes what it last reported -/
+theorem addEnr_known_keeps_radius (c : Option Nat) : stepEv c (.addEnr false) = c := rfl
+
 #print axioms radius_is_last_report
+#print axioms runEv_last_setter
 end Rc
